@@ -40,7 +40,16 @@ pub enum Declared {
 
 #[derive(Clone, Debug, Serialize, Deserialize, PartialEq)]
 pub enum Req {
-    Put { path: String, expected: Exp, size: u32, declared: Declared },
+    Put {
+        path: String,
+        expected: Exp,
+        size: u32,
+        declared: Declared,
+        /// Some(t): the body is taken from a universe shared by all clients (two clients may
+        /// put the very same bytes, to the same or different paths); None: unique per request
+        #[serde(default)]
+        shared_body: Option<u32>,
+    },
     Delete { path: String, expected: Exp },
     Get { path: String },
     List,
@@ -274,8 +283,11 @@ pub fn client_main(
                 let _ = write_frame(&mut frame, &Request::Delete { path: path.clone(), expected: e });
                 (OpKindH::Delete { path: path.clone(), expected: e }, Vec::new())
             }
-            Req::Put { path, expected, size, declared } => {
-                let body = put_body(me, idx, (*size).max(24));
+            Req::Put { path, expected, size, declared, shared_body } => {
+                let body = match shared_body {
+                    Some(t) => put_body(99, *t as usize, (*size).max(24)),
+                    None => put_body(me, idx, (*size).max(24)),
+                };
                 let e = resolve(expected, path, &known);
                 let mut h = b3(&body);
                 let mut len = body.len() as u64;
